@@ -638,8 +638,10 @@ class Consumer(object):
         # outstanding request got errback'd, clear it
         self._request_d = None
 
-        if self._stopping and failure.check(CancelledError):
-            # Not really an error
+        if self._stopping:
+            # Not really an error: stop() cancelled the request. (The client
+            # may report that as some other failure, e.g. when the request
+            # was still looking up the partition's leader.)
             return
         # Do we need to abort?
         if self.request_retry_max_attempts != 0 and self._fetch_attempt_count >= self.request_retry_max_attempts:
@@ -860,8 +862,10 @@ class Consumer(object):
                 return
             self._fetch_offset = self.auto_offset_reset
 
-        if self._stopping and failure.check(CancelledError):
-            # Not really an error
+        if self._stopping:
+            # Not really an error: stop() cancelled the request. (The client
+            # may report that as some other failure, e.g. when the request
+            # was still looking up the partition's leader.)
             return
         # Do we need to abort?
         if self.request_retry_max_attempts != 0 and self._fetch_attempt_count >= self.request_retry_max_attempts:
